@@ -17,9 +17,17 @@
                   clearing f.out after a successful first rename* (handle stays, stale)
      updateFile   Close; filename/rev/openTime; loop: output-dir Stat check, exclusive
                   create (gzip or rotate-interval) or append, size check
-   Simplifications: body and newline are one write; write/fsync/close/mkdir errors other
-   than "file already closed" are not modelled; <REV> is assumed to be in the base name.
-   The clock is an argument of the event (one reading per event).
+   Failing system calls: the configuration carries a fault schedule [fault_at w n] = "the
+   n-th call of kind w made by the logger fails" (w: write of a message, write inside
+   gzipWriter.Close, fsync, close, link, unlink, open; n counts from 1 over the whole run, the
+   counters are the [cnt] field of the state), and [wpartial n] = how many bytes of the line
+   the n-th message write put into the file before it failed.  Every such error is fatal in
+   the Go code (router: Write / Sync error -> FATAL, os.Exit(1); Close and updateFile exit
+   themselves): the model emits [OFail] and [OExit 1] and stops.  The theorems quantify over
+   all configurations, hence over all fault schedules.
+   Simplifications: body and newline are one write (a failure after the body is a partial
+   write of the line); mkdir/stat errors are not modelled; <REV> is assumed to be in the base
+   name.  The clock is an argument of the event (one reading per event).
    There is no Kill event: a SIGKILL / power loss at any instant is "stop after any prefix
    of the emitted trace, then FileOS.crash" (the theorems quantify over all prefixes), which
    also covers instants inside an event (between two system calls).  No proofs here. *)
@@ -66,7 +74,9 @@ Record cfg := mkCfg {
   skip_empty : bool;
   max_in_flight : nat;              (* cap(output) *)
   fname_fmt : bytes;                (* f.filenameFormat, see compute_fname_fmt *)
-  dt_of : Z -> bytes                (* strftime(opts.DatetimeFormat, clock reading) *)
+  dt_of : Z -> bytes;               (* strftime(opts.DatetimeFormat, clock reading) *)
+  fault_at : fkind -> N -> bool;    (* the n-th (from 1) system call of that kind fails *)
+  wpartial : N -> nat               (* bytes of the line written before the n-th message write failed *)
 }.
 
 Definition wdir (c : cfg) : dirT := if use_work c then DWork else DOut.
@@ -106,36 +116,48 @@ Record st := mkSt {
   rev_ : N;
   open_time : Z;
   size : Z;                         (* f.filesize *)
-  status_ : status
+  status_ : status;
+  cnt : fkind -> N                  (* system calls of each kind made so far (fault schedule position) *)
 }.
 
 Definition init (fs0 : fsT) : st :=
-  mkSt fs0 [] HNone [] [] [] [] 0%N 0 0 Running.
+  mkSt fs0 [] HNone [] [] [] [] 0%N 0 0 Running (fun _ => 0%N).
 
 Definition emit (s : st) (o : op) : st :=
   mkSt (apply_op (fs s) o) (o :: rtrace s) (out s) (gzbuf s) (pending s)
        (match o with OFin m => m :: finished s | _ => finished s end)
-       (filename s) (rev_ s) (open_time s) (size s) (status_ s).
+       (filename s) (rev_ s) (open_time s) (size s) (status_ s) (cnt s).
 
 Definition set_out (s : st) (h : hstate) : st :=
-  mkSt (fs s) (rtrace s) h (gzbuf s) (pending s) (finished s) (filename s) (rev_ s) (open_time s) (size s) (status_ s).
+  mkSt (fs s) (rtrace s) h (gzbuf s) (pending s) (finished s) (filename s) (rev_ s) (open_time s) (size s) (status_ s) (cnt s).
 Definition set_gzbuf (s : st) (g : list chunk) : st :=
-  mkSt (fs s) (rtrace s) (out s) g (pending s) (finished s) (filename s) (rev_ s) (open_time s) (size s) (status_ s).
+  mkSt (fs s) (rtrace s) (out s) g (pending s) (finished s) (filename s) (rev_ s) (open_time s) (size s) (status_ s) (cnt s).
 Definition set_pending (s : st) (p : list msg) : st :=
-  mkSt (fs s) (rtrace s) (out s) (gzbuf s) p (finished s) (filename s) (rev_ s) (open_time s) (size s) (status_ s).
+  mkSt (fs s) (rtrace s) (out s) (gzbuf s) p (finished s) (filename s) (rev_ s) (open_time s) (size s) (status_ s) (cnt s).
 Definition set_name (s : st) (fn : bytes) (r : N) (t : Z) : st :=
-  mkSt (fs s) (rtrace s) (out s) (gzbuf s) (pending s) (finished s) fn r t (size s) (status_ s).
+  mkSt (fs s) (rtrace s) (out s) (gzbuf s) (pending s) (finished s) fn r t (size s) (status_ s) (cnt s).
 Definition set_rev (s : st) (r : N) : st :=
-  mkSt (fs s) (rtrace s) (out s) (gzbuf s) (pending s) (finished s) (filename s) r (open_time s) (size s) (status_ s).
+  mkSt (fs s) (rtrace s) (out s) (gzbuf s) (pending s) (finished s) (filename s) r (open_time s) (size s) (status_ s) (cnt s).
 Definition set_size (s : st) (z : Z) : st :=
-  mkSt (fs s) (rtrace s) (out s) (gzbuf s) (pending s) (finished s) (filename s) (rev_ s) (open_time s) z (status_ s).
+  mkSt (fs s) (rtrace s) (out s) (gzbuf s) (pending s) (finished s) (filename s) (rev_ s) (open_time s) z (status_ s) (cnt s).
 Definition set_status (s : st) (x : status) : st :=
-  mkSt (fs s) (rtrace s) (out s) (gzbuf s) (pending s) (finished s) (filename s) (rev_ s) (open_time s) (size s) x.
+  mkSt (fs s) (rtrace s) (out s) (gzbuf s) (pending s) (finished s) (filename s) (rev_ s) (open_time s) (size s) x (cnt s).
+(* one more system call of kind w *)
+Definition bump (s : st) (w : fkind) : st :=
+  mkSt (fs s) (rtrace s) (out s) (gzbuf s) (pending s) (finished s) (filename s) (rev_ s) (open_time s) (size s) (status_ s)
+       (fun w' => if fkind_eqb w w' then N.succ (cnt s w) else cnt s w').
 
 (* logf(FATAL) ; os.Exit(1) *)
 Definition fatal (s : st) : st := set_status (emit s (OExit 1)) Fatal.
 
 Definition running (s : st) : bool := match status_ s with Running => true | _ => false end.
+
+(* ---------- failing system calls ---------- *)
+(* does the next call of kind w fail? *)
+Definition faulty (c : cfg) (s : st) (w : fkind) : bool := fault_at c w (N.succ (cnt s w)).
+
+(* it fails: no effect on the files; every caller logs FATAL and exits with status 1 *)
+Definition fail_at (s : st) (w : fkind) (k : key) : st := fatal (emit (bump s w) (OFail (sys_of w) k)).
 
 (* ---------- file names ---------- *)
 Definition cur_filename (c : cfg) (t : Z) : bytes := replace_all DATETIME (dt_of c t) (fname_fmt c).
@@ -144,9 +166,20 @@ Definition with_rev (tmpl : bytes) (r : N) : bytes := replace_all REV (fmt_rev r
 (* ---------- Sync ---------- *)
 Definition gz_close (s : st) (k : key) : st := set_gzbuf (emit s (OMember k (gzbuf s))) [].
 
+(* (gzip: gzipWriter.Close()) ; f.out.Sync() -- the common part of Sync and Close.  An error
+   of either is fatal: Sync returns it and router exits, Close exits itself.  (After a failed
+   gzipWriter.Close the member is incomplete: nothing decompressible was added.) *)
+Definition flush (c : cfg) (s : st) (k : key) : st :=
+  let s1 := if gzip c then
+              (if faulty c s FGzClose then fail_at s FGzClose k else gz_close (bump s FGzClose) k)
+            else s in
+  if negb (running s1) then s1
+  else if faulty c s1 FFsync then fail_at s1 FFsync k
+  else emit (bump s1 FFsync) (OFsync k).
+
 Definition sync_file (c : cfg) (s : st) : st :=
   match out s with
-  | HOpen k => if gzip c then emit (gz_close s k) (OFsync k) else emit s (OFsync k)
+  | HOpen k => flush c s k
   | _ => fatal s                      (* fsync of a nil or closed *os.File fails *)
   end.
 
@@ -162,13 +195,27 @@ Definition do_sync (c : cfg) (s : st) : st :=
 
 (* ---------- Close ---------- *)
 (* the rev-bump loop of Close: for i := f.rev+1; ; i++ { exclusiveRename(src, tmpl(i)) } *)
-Fixpoint close_bump (fuel : nat) (s : st) (src : key) (i : N) : st :=
+(* exclusiveRename(src, dst) when dst exists: link(2) says EEXIST (unless it fails otherwise) *)
+Definition link_eexist (c : cfg) (s : st) (src dst : key) : st :=
+  if faulty c s FLink then fail_at s FLink src else emit (bump s FLink) (OLink src dst false).
+
+(* exclusiveRename(src, dst) when dst does not exist: link(2), then unlink(2) of src; Close
+   exits on any error of either *)
+Definition move (c : cfg) (s : st) (src dst : key) : st :=
+  if faulty c s FLink then fail_at s FLink src
+  else let s1 := emit (bump s FLink) (OLink src dst true) in
+       if faulty c s1 FUnlink then fail_at s1 FUnlink src
+       else emit (bump s1 FUnlink) (OUnlink src).
+
+Fixpoint close_bump (fuel : nat) (c : cfg) (s : st) (src : key) (i : N) : st :=
   match fuel with
   | O => set_status s Hung
   | S f =>
       let dst := (DOut, with_rev (filename s) i) in
-      if exists_ (fs s) dst then close_bump f (emit s (OLink src dst false)) src (N.succ i)
-      else set_out (emit (emit s (OLink src dst true)) (OUnlink src)) HNone
+      if exists_ (fs s) dst then
+        let s1 := link_eexist c s src dst in
+        if running s1 then close_bump f c s1 src (N.succ i) else s1
+      else set_out (move c s src dst) HNone        (* f.out = nil (of no interest after a fatal exit) *)
   end.
 
 Definition close_file (c : cfg) (s : st) : st :=
@@ -176,15 +223,19 @@ Definition close_file (c : cfg) (s : st) : st :=
   | HNone => s
   | HStale _ => fatal s               (* gzip Close is a no-op, then fsync of a closed file *)
   | HOpen k =>
-      let s1 := if gzip c then gz_close s k else s in
-      let s2 := set_out (emit (emit s1 (OFsync k)) (OClose k)) (HStale k) in
+      let s1 := flush c s k in
+      if negb (running s1) then s1
+      else if faulty c s1 FClose then fail_at s1 FClose k
+      else
+      let s2 := set_out (emit (bump s1 FClose) (OClose k)) (HStale k) in
       if use_work c then
         let dst := (DOut, snd k) in
         if exists_ (fs s2) dst then
-          close_bump (S (length (fs s2))) (emit s2 (OLink k dst false)) k (N.succ (rev_ s2))
+          let s3 := link_eexist c s2 k dst in
+          if running s3 then close_bump (S (length (fs s2))) c s3 k (N.succ (rev_ s2)) else s3
         else
           (* Close returns here without f.out = nil: the handle stays, closed *)
-          emit (emit s2 (OLink k dst true)) (OUnlink k)
+          move c s2 k dst
       else set_out s2 HNone
   end.
 
@@ -199,10 +250,13 @@ Fixpoint open_loop (fuel : nat) (c : cfg) (s : st) : st :=
       else
         let k := (wdir c, name) in
         let excl := excl_mode c in
-        if excl && exists_ (fs s) k then
-          open_loop f c (set_rev (emit s (OCreate k excl (negb excl) false false)) (N.succ (rev_ s)))
+        if faulty c s FOpen then fail_at s FOpen k       (* os.OpenFile: an error other than EEXIST *)
         else
-          let s1 := emit s (OCreate k excl (negb excl) false true) in
+        let s0 := bump s FOpen in
+        if excl && exists_ (fs s) k then
+          open_loop f c (set_rev (emit s0 (OCreate k excl (negb excl) false false)) (N.succ (rev_ s)))
+        else
+          let s1 := emit s0 (OCreate k excl (negb excl) false true) in
           let sz := match lookup (fs s1) k with Some fl => fsize fl | None => 0 end in
           let s2 := set_size (set_gzbuf (set_out s1 (HOpen k)) []) sz in
           if (0 <? rotate_size c) && (rotate_size c <? sz) then
@@ -231,7 +285,15 @@ Definition needs_rotation (c : cfg) (s : st) (t : Z) : bool :=
 Definition write_msg (c : cfg) (s : st) (m : msg) : st :=
   match out s with
   | HOpen k =>
-      let s1 := if gzip c then set_gzbuf s (gzbuf s ++ [line m]) else emit s (OWrite k (line m)) in
+      if faulty c s FWrite then
+        (* f.Write(m.Body) or f.Write("\n") returns an error.  Plain: a part of the line may be
+           in the file (the body without the newline, or a short write); gzip: at most an
+           incomplete member *)
+        let part := firstn (wpartial c (N.succ (cnt s FWrite))) (snd (line m)) in
+        fail_at (if gzip c then s else emit s (OWrite k (None, part))) FWrite k
+      else
+      let s0 := bump s FWrite in
+      let s1 := if gzip c then set_gzbuf s0 (gzbuf s ++ [line m]) else emit s0 (OWrite k (line m)) in
       set_size s1 (size s + Z.of_nat (length (snd (line m))))
   | _ => fatal s                      (* write to a closed file / closed gzip writer *)
   end.
